@@ -32,7 +32,8 @@ class IterSim(Sim):
     RUN_TIMEOUT = 20
     PROBES = ["two_live_cursors_one_tensor", "three_live_cursors", "nested_for_same_tensor", "nested_for_depth3", "nested_for_two_tensors",
               "zip_same_tensor", "list_during_live_iteration", "getitem_during_live_iteration", "abandoned_then_restarted", "exhausted_cursor_polled_again",
-              "rank0_refuses_iteration", "empty_first_dim", "rows_in_backward", "unpack", "len_during_iteration", "iteration_of_op_result"]
+              "rank0_refuses_iteration", "empty_first_dim", "rows_in_backward", "unpack", "len_during_iteration", "iteration_of_op_result",
+              "state_changed_between_iterations"]
     RULE = ("one run = tensors plus a seeded interleaving of iter/next/drop on several cursors with nested for-loops, list/zip/unpack/len/index "
             "events; distinct = hash of (number of cursors, order of new/next/drop and loop events); non-trivial = two cursors over one tensor "
             "were live at once, or a nested loop over one tensor ran")
@@ -78,11 +79,14 @@ class IterSim(Sim):
             t = rng.choice(tids)
             n = st.T[t].data.shape[0] if st.T[t].data.ndim else 0
             return {"k": "getitem", "t": t, "i": rng.randrange(-n, n) if n else 0, "j": rng.randint(0, n) if n else 0, "slice": rng.random() < 0.4}
-        if r < 0.92:
+        if r < 0.91:
             return {"k": "len", "t": rng.choice(tids)}
-        if r < 0.95:
+        if r < 0.93:
             return {"k": "unpack", "t": rng.choice(tids)}
-        return {"k": "rows_backward", "t": rng.choice(tids)}
+        if r < 0.96:
+            return {"k": "rows_backward", "t": rng.choice(tids)}
+        # the tensor's state changes between (or during) iterations through documented calls: later iterations must show the CURRENT rows
+        return {"k": "mutate", "t": rng.choice(tids), "how": rng.choice(["init", "rebind", "step", "set_rg", "no_grad_pass"]), "seed": rng.randrange(10 ** 6)}
 
     # ------------------------------------------------------------------ helpers
     def _rows(self, t):
@@ -91,7 +95,8 @@ class IterSim(Sim):
         return [t[i] for i in range(n)]
 
     def _same(self, a, ref):
-        return a.data.shape == ref.data.shape and a.data.dtype == ref.data.dtype and a.data.tobytes() == ref.data.tobytes()
+        return (a.data.shape == ref.data.shape and a.data.dtype == ref.data.dtype and a.data.tobytes() == ref.data.tobytes()
+                and bool(a.requires_grad) == bool(ref.requires_grad))
 
     def _live_on(self, st, t):
         return [i for i, c in st.its.items() if c["t"] == t and not c["done"]]
@@ -174,6 +179,43 @@ class IterSim(Sim):
         if 0 < c["pos"] and not c["done"]:
             st.probes["abandoned_then_restarted"] += 1
 
+    def _ev_mutate(self, st, ev):
+        SG = st.SG
+        t = st.T.get(ev["t"])
+        if t is None or t.data.ndim == 0 or t.data.shape[0] == 0:
+            st.skipped += 1
+            return
+        how = ev["how"]
+        rs = np.random.RandomState(ev["seed"])
+        leaf = t.grad_fn is None
+        try:
+            with quiet():
+                if how == "init":
+                    saved = np.random.get_state()
+                    np.random.seed(ev["seed"])
+                    SG.init.uniform_(t, -3.0, 3.0)
+                    np.random.set_state(saved)
+                elif how == "rebind":
+                    t.data = (rs.randint(-8, 8, size=t.data.shape) / 4.0).astype(t.data.dtype)
+                elif how == "step" and leaf and t.requires_grad:
+                    t.zero_()
+                    t._grad += 1.0
+                    SG.optim.SGD([t], lr=0.25).step()
+                elif how == "set_rg" and leaf:
+                    t.requires_grad = not t.requires_grad
+                elif how == "no_grad_pass":
+                    with SG.sg.no_grad():
+                        rows = list(t)
+                    del rows
+                else:
+                    st.skipped += 1
+                    return
+        except Exception as e:
+            st.notes["mutate_rejected"] += 1
+            return
+        st.probes["state_changed_between_iterations"] += 1
+        # live cursors keep their position; what they yield from now on is compared with the rows as they are now
+
     def _ev_nested_for(self, st, ev):
         ts = [st.T.get(i) for i in ev["ts"]]
         if any(t is None or t.data.ndim == 0 for t in ts):
@@ -252,7 +294,8 @@ class IterSim(Sim):
         else:
             got = t[i]
             want = t.data[i]
-        if np.asarray(got.data).shape != np.asarray(want).shape or not np.array_equal(np.asarray(got.data, dtype=np.float64), np.asarray(want, dtype=np.float64)):
+        # (to single precision: a 0-d result is re-wrapped as float32 on this tree - a dtype matter, C10, not decided here)
+        if np.asarray(got.data).shape != np.asarray(want).shape or not np.allclose(np.asarray(got.data, dtype=np.float64), np.asarray(want, dtype=np.float64), rtol=1e-6, atol=1e-30):
             st.fail("C05.indexing_during_iteration", f"t[{i}] on tensor {ev['t']} returned the wrong row while iterations were live", tensor=ev["t"])
 
     def _ev_len(self, st, ev):
@@ -294,6 +337,8 @@ class IterSim(Sim):
                 total = s if total is None else total + s
             if total is None:
                 st.fail("C05.iteration", f"a for-loop over tensor {ev['t']} with {t.data.shape[0]} rows yielded nothing", tensor=ev["t"])
+            if not total.requires_grad:
+                st.fail("C05.iteration", f"rows yielded by iterating tensor {ev['t']} (which requires grad) do not require grad: they are not the tensor's current rows", tensor=ev["t"])
             t.zero_()
             total.backward()
         st.probes["rows_in_backward"] += 1
